@@ -69,6 +69,14 @@ impl Pb {
         self.b.push(0);
         self
     }
+    /// ASCII coded string (the file-transfer plugin recognises its markers only in this coding)
+    fn astr(&mut self, s: &str) -> &mut Self {
+        self.ti(0x0000_0200);
+        self.len16(s.len() as u16 + 1);
+        self.b.extend_from_slice(s.as_bytes());
+        self.b.push(0);
+        self
+    }
     fn uint32(&mut self, v: u32) -> &mut Self {
         self.ti(0x0000_0043);
         self.num(v as u64, 4)
@@ -255,16 +263,16 @@ fn dlt_seeds() -> Vec<Seed> {
     {
         let mut s = Sb::new();
         let mut p = Pb::new();
-        p.strg("FLST").uint32(4711).strg("a.bin").uint32(5).strg("date").uint32(2).uint32(3).strg("FLST");
+        p.astr("FLST").uint32(4711).astr("a.bin").uint32(5).astr("date").uint32(2).uint32(3).astr("FLST");
         s.msg(e1, STD, V_LOG, 8, b"SYS\0", b"FILE", 50_000, &p);
         let mut p = Pb::new();
-        p.strg("FLDA").uint32(4711).uint32(1).rawd(&[1, 2, 3]).strg("FLDA");
+        p.astr("FLDA").uint32(4711).uint32(1).rawd(&[1, 2, 3]).astr("FLDA");
         s.msg(e1, STD, V_LOG, 5, b"SYS\0", b"FILE", 50_010, &p);
         let mut p = Pb::new();
-        p.strg("FLDA").uint32(4711).uint32(2).rawd(&[4, 5]).strg("FLDA");
+        p.astr("FLDA").uint32(4711).uint32(2).rawd(&[4, 5]).astr("FLDA");
         s.msg(e1, STD, V_LOG, 5, b"SYS\0", b"FILE", 50_020, &p);
         let mut p = Pb::new();
-        p.strg("FLFI").uint32(4711).strg("FLFI");
+        p.astr("FLFI").uint32(4711).astr("FLFI");
         s.msg(e1, STD, V_LOG, 3, b"SYS\0", b"FILE", 50_030, &p);
         v.push(s.seed("file_transfer", true));
     }
@@ -433,6 +441,24 @@ fn grammar_cases() -> Vec<(String, &'static str, Vec<u8>)> {
             out.push((format!("logcat_pair:{t1}|{t2}"), "txt", b));
         }
     }
+    // field sizes and numbers at the limits of the generated messages (u16 header length, u64 microseconds)
+    for n in [65_490usize, 65_500, 65_514, 65_535, 65_536, 70_000] {
+        let long = "a".repeat(n);
+        out.push((format!("logcat_long_tag:{n}"), "txt", format!("--------- beginning of main\n01-01 00:00:01.000  100   100 I {long}: x\n01-01 00:00:02.000  100   100 I t2: y\n").into_bytes()));
+        out.push((format!("logcat_mono_long_tag:{n}"), "txt", format!("     1.123   100   200 I {long}: hello\n     2.123   100   200 I t2: y\n").into_bytes()));
+        out.push((format!("logcat_long_text:{n}"), "txt", format!("--------- beginning of main\n01-01 00:00:01.000  100   100 I tag: {long}\n").into_bytes()));
+        out.push((format!("genlog_long_tag:{n}"), "log", format!("[2024-03-09 23:01:31.627] [INF] [{long}] text a\n[2024-03-09 23:01:31.628] [INF] [t2] text b\n").into_bytes()));
+        out.push((format!("genlog_long_text:{n}"), "log", format!("[2024-03-09 23:01:31.627] [INF] [tag] {long}\n").into_bytes()));
+        let mut b = format!("date Tue Apr 12 08:55:37 AM 2022\nbase hex timestamps absolute\n//BusMapping: CAN 1 = {long}\n").into_bytes();
+        b.extend_from_slice(b"0.500000 1 36f Rx d 2 01 02 Length = 0 BitCount = 0 ID = 879\n");
+        out.push((format!("asc_long_busname:{n}"), "asc", b));
+    }
+    for t in ["4294967295.999999", "4294967296.000000", "429496.729500", "429496.729600", "42949672.950000", "42949672.960000", "9223372036854.775807", "9223372036855.000000", "9999999999999.985210", "9999999999999999.985210", "18446744073709.551615", "18446744073709.551", "18446744073710.0", "99999999999999.999", "9999999999999999.123", "99999999999999999.123", "18446744073709551615.0", "18446744073709551616.0", "99999999999999999999.1"] {
+        out.push((format!("logcat_mono_time:{t}"), "txt", format!("     1.000   100   200 I tag: first\n{t}   100   200 I tag: hello\n     3.000   100   200 I tag: last\n").into_bytes()));
+        let mut b = pre.clone();
+        b.extend_from_slice(format!("0.500000 1 36f Rx d 2 01 02 Length = 0 BitCount = 0 ID = 879\n{t} 1 36f Rx d 2 01 02 Length = 0 BitCount = 0 ID = 879\n-{t} 1 36f Rx d 2 01 02 Length = 0 BitCount = 0 ID = 879\n1.000000 1 36f Rx d 2 01 02 Length = 0 BitCount = 0 ID = 879\n").as_bytes());
+        out.push((format!("asc_time:{t}"), "asc", b));
+    }
     // generic log
     for d in ["[2024-03-09 23:01:31.627]", "[9999-99-99 99:99:99.999]", "[0000-00-00 00:00:00.000]", "[2024-03-09]", "[]", "2024-03-09 23:01:31.627", "[2024-03-09 23:01:31.627"] {
         for l in ["[INF]", "[ERR]", "[WRN]", "[DBG]", "[]", "[VERYLONGLEVEL]", ""] {
@@ -457,6 +483,8 @@ struct Chain {
     fkc: FilterKindContainer<Vec<Filter>>,
     tmp: tempfile::TempDir,
     namespace: u32,
+    /// files the file-transfer plugin auto-saved (non-vacuity of the file-transfer seeds)
+    ft_saved: u64,
 }
 
 fn heavy_plugins() -> Vec<Box<dyn Plugin + Send>> {
@@ -491,7 +519,7 @@ impl Chain {
             fkc[f.kind].push(f.clone());
         }
         let _ = FilterKind::Positive;
-        Chain { heavy: heavy_plugins(), heavy_uses: 0, filters, fkc, tmp: tempfile::tempdir().expect("tmp"), namespace: get_new_namespace() }
+        Chain { heavy: heavy_plugins(), heavy_uses: 0, filters, fkc, tmp: tempfile::tempdir().expect("tmp"), namespace: get_new_namespace(), ft_saved: 0 }
     }
 
     /// run the whole chain; returns (messages, lifecycles) or the panic
@@ -591,6 +619,7 @@ impl Chain {
         // clean auto-saved files
         if let Ok(rd) = std::fs::read_dir(self.tmp.path()) {
             for e in rd.flatten() {
+                self.ft_saved += 1;
                 let _ = std::fs::remove_file(e.path());
             }
         }
@@ -633,6 +662,11 @@ fn judge(ctx: &mut Ctx, sh: &mut Shared, seed: &str, ext: &str, bytes: &[u8], ca
     let _ = alloc::take_huge_sizes();
     let r = sh.chain.run(ext, bytes);
     let huge = alloc::take_huge_sizes();
+    if sh.chain.ft_saved > 0 {
+        ctx.landmark_n("file_transfer_autosaved", sh.chain.ft_saved);
+        sh.chain.ft_saved = 0;
+    }
+    if std::env::var_os("MC_C03_DEBUG").is_some() && seed == "file_transfer" { eprintln!("DBG huge={:?} base={:?} r={:?}", huge, sh.baseline, r.as_ref().map(|x| *x).map_err(|p| p.msg.clone())); }
     let mut nontrivial = false;
     match r {
         Err(p) => {
@@ -672,13 +706,13 @@ impl Prop for C03 {
         Meta {
             id: "C03",
             level: "fault_enumeration",
-            rule: "seed corpus = generated DLT traces covering every verbose argument type, non-verbose, header shapes, every control service id (request/response, non-verbose and verbose, with bodies for the parsed ones), FLST/FLDA/FLFI, network traces, lifecycle shapes + the plugin-specific message pool of the C19 explorer (NonVerbose / SOME/IP incl. segmented NWST-NWCH-NWEN / CAN / Muniic / Rewrite hits and near misses, 82 messages) + the first 40 (thorough: 200) messages of each repository .dlt example + the repository .asc/.txt/.log examples (prefixes). Mutation operators, each enumerated completely over every seed: (a) every truncation point, (b) every offset x {00,01,7F,80,FF,b^1,b^80}, (b2) every offset x 16-bit {0,FFFF,1} / 32-bit {0,FFFFFFFF} windows, (c) every recorded header/type-info/length/numeric/service-id/timestamp field x boundary table (service ids: all known ids, flag bytes: all 256 values), (d) every ordered pair splice of generated DLT seeds at message boundaries, (e, thorough) every pair of adjacent field corruptions for control and file-transfer seeds, (b3) text seeds: every offset replaced by a 3-byte UTF-8 character, (g) uncorrupted multi-lifecycle histories: the boot-trace product of the C08 explorer (1 ECU x 1..2 boots, 2 ECUs x up to (2,2) boots x every interleaving) as valid DLT files, (h) every lifecycle event sequence up to depth 3 over the 40-symbol alphabet and up to depth 6 over the suspend/resume alphabet of the C05-C07 explorer (detection + listing only; thorough: depth 4 / 8), (f) grammar products of text lines (incl. all ordered pairs of 14 odd tags incl. short multi-byte ones for logcat and generic logs) (timestamp forms x pid/level/tag/text shapes for logcat, time/channel/id/dlc/data for CAN-ASC incl. header lines, date/level/tag for generic logs). Every case runs the full chain on the real code: reader by extension, header/payload text, argument iteration, to_write, EacStats, lifecycle detection + listing, time sort, 10 filters (matches, match_filters, filter_as_streams), FileTransfer(save)/NonVerbose/SomeIp/CAN/Muniic/Rewrite/Anonymize plugins. Oracle: no panic (overflow checks on), no process death (worker isolation), no allocation request >= 32 MiB whose size the unmutated seeds never request. Non-trivial = at least one message was parsed or a violation occurred.".into(),
+            rule: "seed corpus = generated DLT traces covering every verbose argument type, non-verbose, header shapes, every control service id (request/response, non-verbose and verbose, with bodies for the parsed ones), FLST/FLDA/FLFI, network traces, lifecycle shapes + the plugin-specific message pool of the C19 explorer (NonVerbose / SOME/IP incl. segmented NWST-NWCH-NWEN / CAN / Muniic / Rewrite hits and near misses, 82 messages) + the first 40 (thorough: 200) messages of each repository .dlt example + the repository .asc/.txt/.log examples (prefixes). Mutation operators, each enumerated completely over every seed: (a) every truncation point, (b) every offset x {00,01,7F,80,FF,b^1,b^80}, (b2) every offset x 16-bit {0,FFFF,1} / 32-bit {0,FFFFFFFF} windows, (c) every recorded header/type-info/length/numeric/service-id/timestamp field x boundary table (service ids: all known ids, flag bytes: all 256 values), (d) every ordered pair splice of generated DLT seeds at message boundaries, (e) every pair of fields at most 8 apart x corner values for the file-transfer seed (thorough: every pair of adjacent field corruptions x full boundary table for control and file-transfer seeds), (b3) text seeds: every offset replaced by a 3-byte UTF-8 character, (g) uncorrupted multi-lifecycle histories: the boot-trace product of the C08 explorer (1 ECU x 1..2 boots, 2 ECUs x up to (2,2) boots x every interleaving) as valid DLT files, (h) every lifecycle event sequence up to depth 3 over the 40-symbol alphabet and up to depth 6 over the suspend/resume alphabet of the C05-C07 explorer (detection + listing only; thorough: depth 4 / 8), (f) grammar products of text lines (incl. all ordered pairs of 14 odd tags incl. short multi-byte ones for logcat and generic logs) (timestamp forms x pid/level/tag/text shapes for logcat, time/channel/id/dlc/data for CAN-ASC incl. header lines, date/level/tag for generic logs). Every case runs the full chain on the real code: reader by extension, header/payload text, argument iteration, to_write, EacStats, lifecycle detection + listing, time sort, 10 filters (matches, match_filters, filter_as_streams), FileTransfer(save)/NonVerbose/SomeIp/CAN/Muniic/Rewrite/Anonymize plugins. Oracle: no panic (overflow checks on), no process death (worker isolation), no allocation request >= 32 MiB whose size the unmutated seeds never request. Non-trivial = at least one message was parsed or a violation occurred.".into(),
             assumptions: vec!["crash-freedom is decided for the enumerated neighbourhood, not for all byte strings".into(),
                 "FIBEX-configured plugins are re-created every 300 cases (their state carries over within such a window); a panic is re-checked on the single case by replay".into(),
                 "serial-framed DLT is covered through the byte operators on seeds re-framed with DLS markers".into()],
             budget_s: (45, 1500),
             workers: 0,
-            required_landmarks: vec!["parsed_messages", "multi_lifecycle", "op_truncate", "op_subst", "op_field", "op_splice", "op_grammar", "op_wide_subst", "op_multibyte", "op_lc_history", "op_lc_sequence", "fmt_asc", "fmt_txt", "fmt_log", "fmt_serial"],
+            required_landmarks: vec!["parsed_messages", "multi_lifecycle", "op_truncate", "op_subst", "op_field", "op_splice", "op_grammar", "op_wide_subst", "op_multibyte", "op_lc_history", "op_lc_sequence", "op_field_pair", "file_transfer_autosaved", "fmt_asc", "fmt_txt", "fmt_log", "fmt_serial"],
         }
     }
     fn careful(&self) -> bool {
@@ -919,6 +953,41 @@ impl Prop for C03 {
             }
             done
         });
+        ctx.end_family(done);
+        if !done {
+            return;
+        }
+        if std::env::var_os("MC_C03_DUMP").is_some() {
+            for s in gen.iter().filter(|s| s.name == "file_transfer") {
+                eprintln!("DUMP {} {}", hexs(&s.bytes), s.fields.iter().map(|f| format!("{}:{}:{}", f.off, f.width, f.kind)).collect::<Vec<_>>().join(","));
+            }
+        }
+        // (e0) pairs of nearby fields of the file-transfer seed (announced sizes interact: file size x number of
+        // packages x buffer size), corner values only
+        ctx.begin_family("field_pairs_near", "file-transfer seed: every pair of fields at most 8 fields apart x corner values {0,1,max/2,max}^2");
+        'e0: for s in gen.iter().filter(|s| s.name == "file_transfer") {
+            for w1 in 0..s.fields.len() {
+                for w2 in w1 + 1..s.fields.len().min(w1 + 9) {
+                    let (f1, f2) = (&s.fields[w1], &s.fields[w2]);
+                    let corners = |w: usize| -> Vec<u64> { let b = boundary(w); vec![b[0], b[1], b[3], b[6]] };
+                    for v1 in corners(f1.width) {
+                        for v2 in corners(f2.width) {
+                            if ctx.mine() {
+                                let mut b = s.bytes.clone();
+                                put(&mut b, f1, v1);
+                                put(&mut b, f2, v2);
+                                ctx.landmark("op_field_pair");
+                                judge(ctx, &mut sh, &s.name, s.ext, &b, &|| json!({"op": "field_pair", "seed": s.name, "ext": s.ext, "bytes_hex": hexs(&b)}));
+                                check_time!(done);
+                                if !done {
+                                    break 'e0;
+                                }
+                            }
+                        }
+                    }
+                }
+            }
+        }
         ctx.end_family(done);
         if !done {
             return;
